@@ -42,7 +42,7 @@ func (h HTTPIndexHandler) ServeHTTP(w http.ResponseWriter, r *http.Request) {
 func (h HTTPIndexHandler) get(indexName string, w http.ResponseWriter) {
 	idx, err := h.s.GetIndex(indexName)
 	if err != nil {
-		if os.IsNotExist(err) {
+		if indexNotFound(err) {
 			w.WriteHeader(http.StatusNotFound)
 		} else {
 			w.WriteHeader(http.StatusBadRequest)
@@ -57,6 +57,16 @@ func (h HTTPIndexHandler) get(indexName string, w http.ResponseWriter) {
 		return
 	}
 	h.HTTPHandlerBase.get(indexName, b.Bytes(), err, w)
+}
+
+// indexNotFound reports whether err says that the index does not exist in the
+// store: local stores return an os "not exist" error, remote ones NoSuchObject.
+func indexNotFound(err error) bool {
+	if os.IsNotExist(err) {
+		return true
+	}
+	_, ok := err.(NoSuchObject)
+	return ok
 }
 
 func (h HTTPIndexHandler) head(indexName string, w http.ResponseWriter) {
